@@ -65,6 +65,10 @@ pub fn prepare(root: &Path) -> PathBuf {
     std::fs::write(manifest.join("fixtures/app/file.txt"), b"fixture file").unwrap();
     std::fs::write(manifest.join("fixtures/app/remove-me.txt"), b"to be removed by the preprocessor").unwrap();
     std::fs::write(manifest.join("fixtures/app/sub/inner"), b"inner").unwrap();
+    // a read-only fixture file that the preprocessor makes writable and extends IN PLACE: the copy must be a copy
+    std::fs::create_dir_all(manifest.join("fixtures/app/vendor")).unwrap();
+    std::fs::write(manifest.join("fixtures/app/vendor/readonly.sh"), b"read-only fixture file").unwrap();
+    std::fs::set_permissions(manifest.join("fixtures/app/vendor/readonly.sh"), std::os::unix::fs::PermissionsExt::from_mode(0o444)).unwrap();
     // the manifest directory is also a dependency-free libcnb.rs-style buildpack crate (for BuildpackReference::CurrentCrate)
     std::fs::create_dir_all(manifest.join("src")).unwrap();
     std::fs::write(manifest.join("Cargo.toml"), "[package]\nname = \"bp-under-test\"\nversion = \"0.1.0\"\nedition = \"2021\"\n\n[workspace]\n").unwrap();
